@@ -263,4 +263,34 @@ theorem next_day_year_rollover (y : Nat) : daysFromCivil (y+1) 1 1 = daysFromCiv
   simp
   omega
 
+/-! ### the switch of convertStringToXSDValue, as the tables the source is compared with on every run -/
+
+/-- booleans: exactly the spellings of the two tables -/
+theorem convert_bool_by_table (canon : String → Option String) (lex : String) (p : Nat) :
+    convert canon tBoolean lex p =
+      if boolFalseLex.contains lex then .ok (.bool false)
+      else if boolTrueLex.contains lex then .ok (.bool true) else .error "bool" := by
+  simp only [convert, boolFalseLex, boolTrueLex, List.contains_cons, List.contains_nil, Bool.or_false, if_true,
+    Bool.or_eq_true, beq_iff_eq, decide_eq_true_eq, Bool.or_assoc]
+
+/-- the integer case list -/
+theorem isIntType_by_table (dt : String) : isIntType dt = (intTypeNames.map (ns ++ ·)).contains dt := by
+  have e : intTypeNames.map (ns ++ ·) = [tPositive, tNonNegative, tInteger, tNegative, tNonPositive] := rfl
+  rw [e, Bool.eq_iff_iff]
+  simp [isIntType, or_assoc]
+
+/-- every datatype outside the case lists is kept as the string it is (the `default:` arm) -/
+theorem convert_other_is_string (canon : String → Option String) (dt lex : String) (p : Nat)
+    (h : (convertCases.flatten.map (ns ++ ·)).contains dt = false) : convert canon dt lex p = .ok (.str lex) := by
+  simp only [convertCases, intTypeNames, List.flatten_cons, List.flatten_nil, List.cons_append, List.nil_append, List.append_nil,
+    List.map_cons, List.map_nil, List.contains_cons, List.contains_nil, Bool.or_false, Bool.or_eq_false_iff, beq_eq_false_iff_ne,
+    ne_eq] at h
+  obtain ⟨hb, h1, h2, h3, h4, h5, ht, hd⟩ := h
+  have hi : isIntType dt = false := by
+    simp [isIntType, tPositive, tNonNegative, tInteger, tNegative, tNonPositive, h1, h2, h3, h4, h5]
+  have hb' : dt ≠ tBoolean := hb
+  have ht' : dt ≠ tDateTime := ht
+  have hd' : dt ≠ tDouble := hd
+  simp [convert, hb', hi, ht', hd']
+
 end Gsp.Props.C04
